@@ -153,3 +153,65 @@ func exprs(w *World, vs []ssa.Value) []string {
 	}
 	return out
 }
+
+// ------------------------------------------------------------------ C05.R15, R16 (hunt, second wave)
+func init() {
+	// F63: the handshake exists for the cases "block saved, state not yet": it allows the store to be one
+	// block ahead of the state and replays that block. The height of "the block after the state" is
+	// LastBlockHeight+1 — or the chain's initial height while no block has been applied. Measured against
+	// LastBlockHeight+1 alone, a chain with initial_height > 1 cannot recover from a crash in its first block
+	// (the handshake panics on every restart).
+	register("C05", "R15", "K5", "the handshake compares the block store with the height of the block after the state, which is the initial height while no block has been applied", 2, func(c *Ctx) {
+		w := c.W
+		f := c.fn("consensus", "Handshaker.ReplayBlocks")
+		if f == nil {
+			return
+		}
+		fk := funcKey(f)
+		n := 0
+		for _, ea := range condEdges(f) {
+			if ea.A.Kind != "cmp" || ea.E.Succ != 0 {
+				continue
+			}
+			x, y := ea.A.X, ea.A.Y
+			if !strings.HasSuffix(w.expr(x), ".store.Height()") {
+				x, y = y, x
+			}
+			if !strings.HasSuffix(w.expr(x), ".store.Height()") {
+				continue
+			}
+			ys := w.expr(y)
+			if !strings.Contains(ys, "LastBlockHeight + 1") {
+				continue
+			}
+			n++
+			c.Check(strings.Contains(ys, ".InitialHeight"), fmt.Sprintf("%s :: store height compared with the next height #%d", fk, n), w.ipos(ea.E.From.Instrs[len(ea.E.From.Instrs)-1]), "LastBlockHeight+1, or InitialHeight while no block has been applied", "compared with "+ys+": before the first block this is 1, not the chain's initial height")
+		}
+		c.Check(n >= 2, fk+" :: comparisons with the next height found (ahead-by-more panic, ahead-by-one replay)", w.pos(f.Pos()), ">= 2", fmt.Sprintf("%d", n))
+	})
+	// F64: Info's app version initialises the state's version only while there is neither a block in the
+	// state nor one committed by the application: once InitChain was answered, the state was saved with the
+	// version the first block is made with, and a handshake that overwrites it cannot replay that block.
+	register("C05", "R16", "K1", "the handshake takes the app version from Info only while neither the state nor the application has a block", 2, func(c *Ctx) {
+		w := c.W
+		f := c.fn("consensus", "Handshaker.Handshake")
+		if f == nil {
+			return
+		}
+		fk := funcKey(f)
+		n := 0
+		for _, b := range f.Blocks {
+			for _, in := range b.Instrs {
+				st, ok := in.(*ssa.Store)
+				if !ok || !strings.HasSuffix(w.expr(st.Addr), ".Version.Consensus.App") {
+					continue
+				}
+				n++
+				c.guards(f, st, fk+" :: take the app version from Info", 0,
+					guardCmp("the state has no block", `\w+\.initialState\.LastBlockHeight`, "==", "0"),
+					guardCmp("the application has committed no block", `.*InfoSync\(.*\)#0\.LastBlockHeight`, "==", "0"))
+			}
+		}
+		c.Check(n == 1, fk+" :: version assignment found", w.pos(f.Pos()), "1", fmt.Sprintf("%d", n))
+	})
+}
